@@ -2,7 +2,7 @@
 (***************************************************************************)
 (* C05 monitor.  One trace per operation of a generated package (or per    *)
 (* bundled stream helper):                                                 *)
-(*   [id, served, others : Seq(status), c, sh  - the scenario of Gen_Reply *)
+(*   [id, served, others : Seq(status), c, sh, sib - scenario of Gen_Reply *)
 (*    role : "primary" | "secondary" | "default" | "helper",               *)
 (*    via  : "method" | "helper:<function>",                               *)
 (*    ann  : Seq(kind) - what the REAL return annotation admits,           *)
@@ -33,13 +33,13 @@ Judge ==
          n    == Len(t.ev)
          ctx  == Ctx(t.role, t.c, t.sh, t.via)
          ann  == ToSet(t.ann)
-         sc   == [served |-> t.served, cell |-> [c |-> t.c, sh |-> t.sh], others |-> ToSet(t.others)]
+         sc   == [served |-> t.served, cell |-> [c |-> t.c, sh |-> t.sh], others |-> ToSet(t.others), sib |-> t.sib]
          d    == Decl(sc)
          B(i) == t.ev[i].body
          G(i) == Got(t.ev[i].got)
          isMethod == t.via = "method"
          FA   == [i \in 1..n |-> Failures(ctx, B(i), ann, G(i))]
-         MO   == [i \in 1..n |-> IF isMethod THEN ModelOutcome("as_is", d, t.served, B(i)) ELSE G(i)]
+         MO   == [i \in 1..n |-> IF isMethod THEN ModelOutcome("as_is", d, t.sib, t.served, B(i)) ELSE G(i)]
          MF   == [i \in 1..n |-> IF isMethod THEN Failures(ctx, B(i), Ann("as_is", d), MO[i]) ELSE {}]
          Agg(FS, f) == LET idx == {i \in 1..n : f \in FS[i]} IN [clause |-> f.clause, locus |-> f.locus, n |-> Cardinality(idx), first |-> Min(idx)]
          AggAll(FS) == LET all == UNION {FS[i] : i \in 1..n} IN SetToSeq({Agg(FS, f) : f \in all})
